@@ -167,7 +167,11 @@ def build_driver(name, race=False):
     os.makedirs(BIN, exist_ok=True)
     gosum = os.path.join(HARNESS, "go.sum")
     try:
-        shutil.copyfile(os.path.join(REPO, "go.sum"), gosum)
+        # atomically (checks started at the same moment share the harness copy: a half-written go.sum makes a
+        # concurrent `go build` look for the missing sums on the network)
+        tmp = "%s.%d" % (gosum, os.getpid())
+        shutil.copyfile(os.path.join(REPO, "go.sum"), tmp)
+        os.replace(tmp, gosum)
     except OSError as e:
         raise Infra("cannot copy go.sum: %s" % e)
     out = os.path.join(BIN, name + ("-race" if race else ""))
